@@ -444,7 +444,8 @@ CACHE_PATHS = {0: "L:lru", 1: "L:eof", 2: "L:lines", 3: "L:by_end", 4: "L:A0", 5
                20: "S:lru", 21: "S:range", 22: "S:syslines", 23: "S:search", 24: "S:done", 25: "S:in_block_done",
                26: "S:PANIC(dropped range)", 27: "S:fail",
                30: "SB:lru", 31: "SB:range", 32: "SB:syslines", 33: "SB:search", 34: "SB:done", 35: "SB:done/partial",
-               36: "SB:PANIC(dropped range)", 37: "SB:fail", 40: "driver", 41: "unit"}
+               36: "SB:PANIC(dropped range)", 37: "SB:fail", 40: "driver", 41: "unit",
+               50: "L:block gone", 60: "LB:block gone"}
 
 
 def line_starts(f):
@@ -563,14 +564,30 @@ def parse_cache_answer(op, s):
         if p[1] == "Done":
             return dict(kind=k, res=None, pf=p[2] == "1", cnt=_ints(p[3]))
         return dict(kind=k, res=tuple(int(x) for x in p[2:7]) + (p[7],), pf=p[8] == "1", cnt=_ints(p[9]))
-    if k in ("CLE", "CSE", "CDD", "CDS"):
+    if k in ("CLE", "CSE", "CDD", "CDS", "CXD"):
         return dict(kind=k, cnt=_ints(p[2]))
     if k == "CRD":
         return dict(kind=k, cnt=_ints(p[2]), items=parse_items(p[4:]))
     return dict(kind="ERR", what=s[:40])
 
 
-def run_cache_cases(cases, scratch, timeout=900, per_cmd=20):
+def stored_form(kind, data):
+    """the bytes of the container `kind` (plain | gz | bz2 | lz4) holding `data` (writers of checks/c05.py)"""
+    if kind == "plain":
+        return data
+    import random as _r
+    import c05
+    if kind == "gz":
+        return c05.gz_bytes(_r.Random(len(data)), data)
+    if kind == "bz2":
+        import bz2 as _bz2
+        return _bz2.compress(data)
+    if kind == "lz4":
+        return c05.lz4_frame(data, [len(data)] if data else [], content_size=False)
+    raise ValueError(kind)
+
+
+def run_cache_cases(cases, scratch, timeout=900, per_cmd=8):
     """cases: [(bs, f, table, ops)].  Runs each sequence on fresh readers (one harness process, one
     command at a time where an offset depends on the previous answer).  Returns (answers, tables, ops) with
     the ops made concrete, sequences cut after a panic / error / hang (an operation that does not answer
@@ -618,7 +635,9 @@ def run_cache_cases(cases, scratch, timeout=900, per_cmd=20):
     hangs = 0
     try:
         start()
-        for bs, f, tab, ops in cases:
+        for case in cases:
+            bs, f, tab, ops = case[:4]
+            kind = case[4] if len(case) > 4 else "plain"
             if hangs >= 3:
                 break                      # three hanging sequences are evidence enough; the rest is skipped
             if time.time() > t_end:
@@ -626,7 +645,8 @@ def run_cache_cases(cases, scratch, timeout=900, per_cmd=20):
             tab = dict(tab)
             ans, cops = [], []
             try:
-                ask("F\t" + f.hex())
+                ask("K\t" + kind)
+                ask("F\t" + stored_form(kind, f).hex())
                 if not ask("B\t%d" % bs).endswith("OK"):
                     raise RuntimeError("harness c02 could not open readers at blocksz %d" % bs)
                 next_lb, next_sb = 0, 0
@@ -685,6 +705,8 @@ def coq_cop(o):
         return "(%s %d)" % ({"CL": "OL", "CLB": "OLB", "CS": "OS", "CSB": "OSB", "CDD": "ODD", "CDS": "ODS"}[k], o[1])
     if k in ("CLE", "CSE"):
         return "(%s %s)" % ("OLE" if k == "CLE" else "OSE", "true" if o[1] else "false")
+    if k == "CXD":
+        return "OXD"
     return "(ORD [%s])" % "; ".join("true" if c == "1" else "false" for c in o[1] if c in "01")
 
 
@@ -706,15 +728,19 @@ def coq_iop(o, a):
         return "%s %s %s" % ("ILE" if k == "CLE" else "ISE", "true" if o[1] else "false", c)
     if k in ("CDD", "CDS"):
         return "%s %d %s" % ("IDD" if k == "CDD" else "IDS", o[1], c)
+    if k == "CXD":
+        return "IXD %s" % c
     plan = "[%s]" % "; ".join("true" if ch == "1" else "false" for ch in o[1] if ch in "01")
     return "IRD %s [%s] %s" % (plan, "; ".join('(%d, %d, %d, %d%%Z, "%s")' % it for it in a["items"]), c)
 
 
 def coq_cache_cases(cases):
-    """cases: (bs, file, table, [(op, answer)])"""
+    """cases: (bs, file, table, [(op, answer)][, kind])"""
     rows = []
-    for bs, f, tab, oa in cases:
-        rows.append('(%d, "%s", %s, [%s])' % (bs, f.hex(), coq_table(tab), ";\n   ".join(coq_iop(o, a) for o, a in oa)))
+    for case in cases:
+        bs, f, tab, oa = case[:4]
+        stream = "true" if (len(case) > 4 and case[4] != "plain") else "false"
+        rows.append('(%d, %s, "%s", %s, [%s])' % (bs, stream, f.hex(), coq_table(tab), ";\n   ".join(coq_iop(o, a) for o, a in oa)))
     return COQ_HDR_C + "Definition cases : list ccase := [\n%s\n].\nEval vm_compute in (cache_bad cases).\n" % ";\n".join(rows)
 
 
@@ -740,12 +766,14 @@ def py_spec_find_sysline(f, table, fo):
     return None
 
 
-def cache_spec_mismatches(f, table, ops, answers, check_sysline_until=None):
+def cache_spec_mismatches(f, table, ops, answers, check_sysline_until=None, judge_lines=True):
     """C for the cache mode, python side: indexes of operations whose answer contradicts the spec.
     find_line / find_sysline / the driver must give the spec answer; find_line_in_block may give Done;
     a panic is a mismatch unless a drop operation came before it (documented: find_sysline inside the
     range of a dropped sysline).  Answers of find_sysline after the first find_sysline_in_block that is
-    not part of the leading block-zero-analysis pattern are not judged (check_sysline_until)."""
+    not part of the leading block-zero-analysis pattern are not judged (check_sysline_until).  judge_lines=False:
+    the stand-alone LineReader reads a streamed container with block drops enabled (disable_drop_data acts on
+    the SyslineReader's BlockReader only): a backward find_line may answer Done there (tied to the model only)."""
     bad = []
     dropped = False
     for i, (o, a) in enumerate(zip(ops, answers)):
@@ -758,7 +786,7 @@ def cache_spec_mismatches(f, table, ops, answers, check_sysline_until=None):
                 bad.append((i, "panic"))
             continue
         judge_s = check_sysline_until is None or i < check_sysline_until
-        if k == "CL" or (k == "CLB" and a["res"] is not None):
+        if (k == "CL" or (k == "CLB" and a["res"] is not None)) and judge_lines:
             s = py_spec_find_line(f, o[1])
             got = None if a["res"] is None else (a["res"][0], a["res"][1], a["res"][2], bytes.fromhex(a["res"][6]))
             if got != s:
@@ -796,19 +824,20 @@ def first_wild_sysline_in_block(ops, answers=None):
     return None
 
 
-def shrink_cache_case(bs, f, table, ops, scratch, wild_from, budget=120):
+def shrink_cache_case(bs, f, table, ops, scratch, wild_from, budget=120, kind="plain"):
+    jl = kind == "plain"
     """greedy removal of operations while some answer still contradicts the spec; returns (ops, answers)"""
     def failing(cand):
-        ans, tabs, cops = run_cache_cases([(bs, f, table, cand)], scratch)
+        ans, tabs, cops = run_cache_cases([(bs, f, table, cand, kind)], scratch)
         if ans is None:
             return None
         w = first_wild_sysline_in_block(cops[0], ans[0])
-        return (cops[0], ans[0]) if cache_spec_mismatches(f, tabs[0], cops[0], ans[0], w) else None
+        return (cops[0], ans[0]) if cache_spec_mismatches(f, tabs[0], cops[0], ans[0], w, jl) else None
     cur = failing(ops)
     if cur is None:
         return ops, None
     if any(a["kind"] == "ERR" and "HANG" in a.get("what", "") for a in cur[1]):
-        budget = min(budget, 6)          # every re-run of a hanging sequence costs the answer timeout
+        budget = min(budget, 2)          # every re-run of a hanging sequence costs the answer timeout
     runs = 0
     changed = True
     while changed and runs < budget:
